@@ -11,8 +11,7 @@ var relationType = reflect.TypeOf((*ecs.Relation)(nil)).Elem()
 
 // compiledQuery is a helper for compiling a generic filter into a [ecs.Filter].
 type compiledQuery struct {
-	maskFilter     ecs.MaskFilter
-	relationFilter ecs.RelationFilter
+	maskFilter     *ecs.MaskFilter
 	cachedFilter   ecs.CachedFilter
 	filter         ecs.Filter
 	Ids            []ecs.ID
@@ -43,7 +42,7 @@ func (q *compiledQuery) Compile(w *ecs.World, include, optional, exclude []Comp,
 	} else {
 		excl = toMask(w, exclude)
 	}
-	q.maskFilter = ecs.MaskFilter{
+	q.maskFilter = &ecs.MaskFilter{
 		Include: incl,
 		Exclude: excl,
 	}
@@ -53,7 +52,7 @@ func (q *compiledQuery) Compile(w *ecs.World, include, optional, exclude []Comp,
 		if noExclude {
 			q.filter = q.maskFilter.Include
 		} else {
-			q.filter = &q.maskFilter
+			q.filter = q.maskFilter
 		}
 		q.Relation = ecs.ID{}
 		q.HasRelation = false
@@ -78,13 +77,13 @@ func (q *compiledQuery) Compile(w *ecs.World, include, optional, exclude []Comp,
 
 		if hasTarget {
 			q.Target = target
-			q.relationFilter = ecs.NewRelationFilter(&q.maskFilter, target)
-			q.filter = &q.relationFilter
+			relationFilter := ecs.NewRelationFilter(q.maskFilter, target)
+			q.filter = &relationFilter
 		} else {
 			if noExclude {
 				q.filter = q.maskFilter.Include
 			} else {
-				q.filter = &q.maskFilter
+				q.filter = q.maskFilter
 			}
 		}
 	}
